@@ -1,3 +1,305 @@
-import PvModel.SettleSpec
+/-
+C01 — order settlement moves exactly the agreed assets, price and fees.
+
+Property theorems only (helper lemmas live in `PvProofs/Lemmas/Settle*.lean`).  All statements are
+for every list of asks and bids, every amount, every ratio; where the Go code can only be entered
+with stored orders (positive amounts, `Order.Validate`) that is an explicit hypothesis.
+-/
+import PvProofs.Lemmas.SettleFilled
+import Mathlib.Tactic.SplitIfs
+
 namespace PvProofs.C01
+open PvModel PvModel.Settle PvModel.Coins PvModel.Ledger PvProofs.Settle
+
+/-! ## 1. `Order.Split` is exact -/
+
+/-- **Split exactness.**  If `Order.Split` succeeds then the filled amount is strictly inside the
+order, the order allows partial fills, the two halves are the order with only assets, price and
+fees changed, and assets, price and every fee coin add up to the original *and* keep the original
+`assets : price : fee` proportions exactly — for the filled half and for what is left. -/
+theorem split_exact {o a b : Order} {f : Int} (h : o.split f = .ok (a, b)) :
+    0 < f ∧ f < o.assets ∧ o.allowPartial = true ∧
+    a.sameParty o ∧ b.sameParty o ∧
+    a.assets = f ∧ a.assets + b.assets = o.assets ∧
+    a.price + b.price = o.price ∧
+    a.price * o.assets = o.price * a.assets ∧ b.price * o.assets = o.price * b.assets ∧
+    ∀ d, amountOf a.fees d + amountOf b.fees d = amountOf o.fees d ∧
+         amountOf a.fees d * o.assets = amountOf o.fees d * a.assets ∧
+         amountOf b.fees d * o.assets = amountOf o.fees d * b.assets := by
+  have F := split_facts h
+  have ha := F.a_assets
+  have hb := F.b_assets
+  refine ⟨F.pos, F.lt, F.allowed, F.a_party, F.b_party, ha, by omega, F.price_sum, ?_, ?_, ?_⟩
+  · rw [ha]; exact F.price_prop
+  · rw [hb]
+    have h1 := F.price_sum
+    have h2 := F.price_prop
+    have : b.price = o.price - a.price := by omega
+    rw [this]; linarith [Int.sub_mul o.price a.price o.assets, Int.mul_sub o.price o.assets f]
+  · intro d
+    have h1 := F.fee_sum d
+    have h2 := F.fee_prop d
+    refine ⟨h1, by rw [ha]; exact h2, ?_⟩
+    rw [hb]
+    have : amountOf b.fees d = amountOf o.fees d - amountOf a.fees d := by omega
+    rw [this]
+    linarith [Int.sub_mul (amountOf o.fees d) (amountOf a.fees d) o.assets,
+      Int.mul_sub (amountOf o.fees d) o.assets f]
+
+/-- Both halves of a split keep a positive price (so the remainder is again a valid order). -/
+theorem split_prices_positive {o a b : Order} {f : Int} (h : o.split f = .ok (a, b)) (hp : 0 < o.price) :
+    0 < a.price ∧ 0 < b.price := by
+  obtain ⟨hf, hlt, _, _, _, ha, hsum, _, h1, h2, _⟩ := split_exact h
+  have hA : 0 < o.assets := by omega
+  constructor
+  · by_contra hn
+    have : a.price * o.assets ≤ 0 := Int.mul_nonpos_of_nonpos_of_nonneg (by omega) (by omega)
+    have : 0 < o.price * a.assets := Int.mul_pos hp (by omega)
+    omega
+  · by_contra hn
+    have : b.price * o.assets ≤ 0 := Int.mul_nonpos_of_nonpos_of_nonneg (by omega) (by omega)
+    have : 0 < o.price * b.assets := Int.mul_pos hp (by omega)
+    omega
+
+/-- The amounts on hold for the two halves add up to the hold of the original order
+(`GetHoldAmount`: ask = assets + flat fee unless it is in the price denom; bid = price + fees). -/
+theorem split_hold {o a b : Order} {f : Int} (h : o.split f = .ok (a, b)) (d : Denom) :
+    amountOf a.holdAmount d + amountOf b.holdAmount d = amountOf o.holdAmount d := by
+  obtain ⟨_, _, _, ha, hb, _, hsum, hps, _, _, hfee⟩ := split_exact h
+  have hfd := (hfee d).1
+  obtain ⟨_, e1, _, e3, e5, _⟩ := ha
+  obtain ⟨_, e2, _, e4, e6, _⟩ := hb
+  unfold Order.holdAmount
+  rw [e1, e2, e3, e4, e5, e6]
+  by_cases hk : o.isAsk = true
+  · simp only [hk, if_true, amountOf_cons]
+    have := amountOf_filter_denom a.fees (fun x => decide (x ≠ o.priceDenom)) d
+    have := amountOf_filter_denom b.fees (fun x => decide (x ≠ o.priceDenom)) d
+    have := amountOf_filter_denom o.fees (fun x => decide (x ≠ o.priceDenom)) d
+    simp only [*]
+    split_ifs <;> omega
+  · simp only [hk, Bool.false_eq_true, if_false, amountOf_append, amountOf_cons, amountOf_nil]
+    split_ifs <;> omega
+
+/-- The checker the driver runs on the implementation's `Order.Split` output accepts everything the
+model produces for a stored order: `splitViolation` is the conclusion of `split_exact`,
+`split_prices_positive`, `split_hold`. -/
+theorem split_checker_sound {o a b : Order} {f : Int} (h : o.split f = .ok (a, b)) (hp : 0 < o.price) :
+    splitViolation o f a b = none := by
+  obtain ⟨hf, hlt, hal, ha, hb, haf, hsum, hps, hpa, hpb, hfee⟩ := split_exact h
+  obtain ⟨hpa', hpb'⟩ := split_prices_positive h hp
+  have hbf : b.assets = o.assets - f := by omega
+  have c6 : coinsEq (a.fees ++ b.fees) o.fees = true :=
+    coinsEq_of_forall (fun d => by simp [(hfee d).1])
+  have c7 : proportional a o f o.assets = true := by
+    simp only [proportional, Bool.and_eq_true, decide_eq_true_eq, List.all_eq_true]
+    exact ⟨⟨by rw [haf]; exact Int.mul_comm _ _, by rw [← haf]; exact hpa⟩,
+      fun d _ => by rw [← haf]; exact (hfee d).2.1⟩
+  have c8 : proportional b o (o.assets - f) o.assets = true := by
+    simp only [proportional, Bool.and_eq_true, decide_eq_true_eq, List.all_eq_true]
+    exact ⟨⟨by rw [hbf]; exact Int.mul_comm _ _, by rw [← hbf]; exact hpb⟩,
+      fun d _ => by rw [← hbf]; exact (hfee d).2.2⟩
+  have c10 : coinsEq (a.holdAmount ++ b.holdAmount) o.holdAmount = true :=
+    coinsEq_of_forall (fun d => by simp [split_hold h d])
+  unfold splitViolation
+  rw [if_neg (not_not.mpr ⟨hf, hlt⟩), if_neg (not_not.mpr hal), if_neg (not_not.mpr ⟨ha, hb⟩),
+    if_neg (not_not.mpr ⟨haf, hsum⟩), if_neg (not_not.mpr hps), if_neg (not_not.mpr c6),
+    if_neg (not_not.mpr c7), if_neg (not_not.mpr c8), if_neg (not_not.mpr ⟨hpa', hpb'⟩),
+    if_neg (not_not.mpr c10)]
+
+/-! ## 2. `BuildSettlement`
+
+`plan asks bids lookup = .ok p` is `BuildSettlement` up to and including `setFeesToPay`
+(`p.asks`/`p.bids` are the orders after `splitPartial`, `p.trA`/`p.trP` the recorded asset and price
+distributions); `p.settlement = .ok s` is `validateFulfillments`, `buildTransfers`, `populateFilled`.
+`buildSettlement` is their composition (`buildSettlement_eq`). -/
+
+theorem buildSettlement_eq {asks bids : List Order} {lookup : Denom → Except Err (Option Ratio)} {s : Settlement} :
+    buildSettlement asks bids lookup = .ok s ↔ ∃ p, plan asks bids lookup = .ok p ∧ p.settlement = .ok s := by
+  unfold buildSettlement
+  constructor
+  · intro h
+    split at h
+    · simp at h
+    · rename_i p hp; exact ⟨p, hp, h⟩
+  · rintro ⟨p, hp, hs⟩
+    rw [hp]; exact hs
+
+/-- **At most one order is partially filled; it is the last of its list, allows partial fills, and
+is split exactly** (so `split_exact` applies to it).  Every other order goes through unchanged. -/
+theorem at_most_one_partial {asks bids : List Order} {lookup : Denom → Except Err (Option Ratio)} {p : Plan}
+    (hp : plan asks bids lookup = .ok p) :
+    (p.asks = asks ∧ p.bids = bids ∧ p.partialLeft = none) ∨
+    (∃ init o f u, asks = init ++ [o] ∧ p.asks = init ++ [f] ∧ p.bids = bids ∧ p.partialLeft = some u ∧
+        o.allowPartial = true ∧ o.split (filledA p.trA init.length) = .ok (f, u)) ∨
+    (∃ init o f u, bids = init ++ [o] ∧ p.bids = init ++ [f] ∧ p.asks = asks ∧ p.partialLeft = some u ∧
+        o.allowPartial = true ∧ o.split (filledB p.trA init.length) = .ok (f, u)) := by
+  obtain ⟨left1, ratio, _, _, h3, h4, _⟩ := plan_unfold hp
+  rcases splitOrderFulfillments_spec h3 with ⟨a1, a2, _⟩ | ⟨init, o, f, u, a1, a2, _, a4, a5, _⟩
+  · rcases splitOrderFulfillments_spec h4 with ⟨b1, b2, _⟩ | ⟨init, o, f, u, b1, b2, _, b4, b5, _⟩
+    · left; exact ⟨a1, b1, by rw [b2, a2]⟩
+    · right; right
+      simp only [Nat.zero_add] at b5
+      exact ⟨init, o, f, u, b1, b2, a1, b4, (split_exact b5).2.2.1, b5⟩
+  · rcases splitOrderFulfillments_spec h4 with ⟨b1, b2, _⟩ | ⟨_, _, _, _, _, _, b3, _⟩
+    · right; left
+      simp only [Nat.zero_add] at a5
+      exact ⟨init, o, f, u, a1, a2, b1, by rw [b2, a4], (split_exact a5).2.2.1, a5⟩
+    · rw [a4] at b3; cases b3
+
+/-- **Every order is filled exactly.**  If `BuildSettlement` succeeds, every ask (after the split of
+a partial one) gives exactly its assets and is credited at least its price; every bid receives
+exactly its assets and pays exactly its price.  (`filledA`/`filledB` are what the recorded
+distributions move from/to the order; `account_deltas` ties them to the transfers.) -/
+theorem orders_filled_exactly {p : Plan} {s : Settlement} (hs : p.settlement = .ok s) :
+    (∀ k o, p.asks[k]? = some o → filledA p.trA k = o.assets ∧ o.price ≤ filledA p.trP k) ∧
+    (∀ k o, p.bids[k]? = some o → filledB p.trA k = o.assets ∧ filledB p.trP k = o.price) := by
+  obtain ⟨ta, tb, v1, v2, _⟩ := settlement_unfold hs
+  constructor
+  · intro k o hk
+    obtain ⟨h1, _, h3⟩ := validateSide_ok v1 k o hk
+    rw [Nat.zero_add] at h1 h3
+    exact ⟨h3.symm, h1 rfl⟩
+  · intro k o hk
+    obtain ⟨_, h2, h3⟩ := validateSide_ok v2 k o hk
+    rw [Nat.zero_add] at h2 h3
+    exact ⟨h3.symm, (h2 rfl).symm⟩
+
+/-- **Conservation through allocation.**  The assets all asks give are the assets all bids receive,
+and the price all bids pay is the price all asks receive (hence `Σ ask received = Σ bid price`). -/
+theorem conservation {asks bids : List Order} {lookup : Denom → Except Err (Option Ratio)} {p : Plan}
+    {s : Settlement} (hp : plan asks bids lookup = .ok p) (hs : p.settlement = .ok s) :
+    (p.asks.map (·.assets)).sum = (p.bids.map (·.assets)).sum ∧
+    sumIdx (fun k _ => filledA p.trP k) 0 p.asks = (p.bids.map (·.price)).sum ∧
+    (p.asks.map (·.price)).sum ≤ (p.bids.map (·.price)).sum := by
+  obtain ⟨ad, pd, W⟩ := plan_wf hp
+  obtain ⟨hA, hB⟩ := orders_filled_exactly hs
+  have a1 : sumIdx (fun k _ => filledA p.trA k) 0 p.asks = sumTr (·.amt) p.trA :=
+    sumIdx_credits (·.ask) p.trA p.asks _ (fun e he => by have := W.rA e he; omega)
+  have a2 : sumIdx (fun k _ => filledB p.trA k) 0 p.bids = sumTr (·.amt) p.trA :=
+    sumIdx_credits (·.bid) p.trA p.bids _ (fun e he => by have := W.rA e he; omega)
+  have p1 : sumIdx (fun k _ => filledA p.trP k) 0 p.asks = sumTr (·.amt) p.trP :=
+    sumIdx_credits (·.ask) p.trP p.asks _ (fun e he => by have := W.rP e he; omega)
+  have p2 : sumIdx (fun k _ => filledB p.trP k) 0 p.bids = sumTr (·.amt) p.trP :=
+    sumIdx_credits (·.bid) p.trP p.bids _ (fun e he => by have := W.rP e he; omega)
+  have e1 : sumIdx (fun k _ => filledA p.trA k) 0 p.asks = (p.asks.map (·.assets)).sum :=
+    (sumIdx_congr_idx (fun k o hk => by simpa using (hA k o hk).1)).trans (sumIdx_map (·.assets) 0 p.asks)
+  have e2 : sumIdx (fun k _ => filledB p.trA k) 0 p.bids = (p.bids.map (·.assets)).sum :=
+    (sumIdx_congr_idx (fun k o hk => by simpa using (hB k o hk).1)).trans (sumIdx_map (·.assets) 0 p.bids)
+  have e3 : sumIdx (fun k _ => filledB p.trP k) 0 p.bids = (p.bids.map (·.price)).sum :=
+    (sumIdx_congr_idx (fun k o hk => by simpa using (hB k o hk).2)).trans (sumIdx_map (·.price) 0 p.bids)
+  have e4 : (p.asks.map (·.price)).sum ≤ sumIdx (fun k _ => filledA p.trP k) 0 p.asks := by
+    rw [← sumIdx_map (·.price) 0 p.asks]
+    exact sumIdx_le (fun k o hk => by simpa using (hA k o hk).2)
+  refine ⟨by omega, by omega, by omega⟩
+
+/-- **Every transfer is balanced**: per denom, the inputs' total equals the outputs' total (so the
+bank's `SendCoins` / `InputOutputCoinsProv` never see an unbalanced request). -/
+theorem transfers_balanced {p : Plan} {s : Settlement} (hs : p.settlement = .ok s) :
+    ∀ t ∈ s.transfers, ∀ d, amountOf t.inputs.total d = amountOf t.outputs.total d := by
+  obtain ⟨ta, tb, _, _, ra, rb, ht, _⟩ := settlement_unfold hs
+  intro t ht' d
+  rw [ht] at ht'
+  rcases List.mem_append.mp ht' with h | h
+  · obtain ⟨k, o, _, hg⟩ := recordSide_forall ra t h
+    exact assetTransfer_balanced hg d
+  · obtain ⟨k, o, _, hg⟩ := recordSide_forall rb t h
+    exact priceTransfer_balanced hg d
+
+/-- **Account-level deltas of the transfers.**  For every account and denom — one account may own
+several orders, on both sides — the net effect of all transfers of a successful `BuildSettlement`
+is exactly: for each of its asks `− assets + price received`, for each of its bids
+`+ assets − price` (`expectedDelta`).  In particular nobody else is touched by the transfers. -/
+theorem account_deltas {asks bids : List Order} {lookup : Denom → Except Err (Option Ratio)} {p : Plan}
+    {s : Settlement} (hp : plan asks bids lookup = .ok p) (hs : p.settlement = .ok s) (x : Addr) (d : Denom) :
+    transfersNet s.transfers x d = expectedDelta (Plan.filledOrders p) x d := by
+  obtain ⟨ad, pd, W⟩ := plan_wf hp
+  obtain ⟨ta, tb, v1, v2, ra, rb, ht, _, _, _⟩ := settlement_unfold hs
+  have VA := validateSide_ok v1
+  have VB := validateSide_ok v2
+  -- transfers: assets from the asks, price from the bids
+  have hta := side_deltas (t := p.trA) (takers := p.bids) (·.ask) (·.bid) ad x d ra
+    (by
+      intro k o tr ho hg
+      rw [bal_assetTransfer hg, (W.uA o ho).1]; rfl)
+    (fun e he => by have := W.rA e he; omega) (fun e he => by have := W.rA e he; omega)
+  have htb := side_deltas (t := p.trP) (takers := p.asks) (·.bid) (·.ask) pd x d rb
+    (by
+      intro k o tr ho hg
+      rw [bal_priceTransfer hg, (W.uB o ho).2.1]; rfl)
+    (fun e he => by have := W.rP e he; omega) (fun e he => by have := W.rP e he; omega)
+  unfold transfersNet
+  rw [ht, List.flatMap_append, bal_append, hta, htb]
+  -- expected deltas as index sums
+  unfold Plan.filledOrders
+  rw [expectedDelta_append, expectedDelta_zipFilled _ _ _ _ W.lenAF, expectedDelta_zipFilled _ _ _ _ W.lenBF]
+  have eA : sumIdx (fun k o => if o.owner = x then (FilledOrder.mk o (filledA p.trP k) []).delta d else 0) 0 p.asks
+      = sumIdx (fun k o => (if o.owner = x ∧ pd = d then sumTr (·.amt) (p.trP.filter (fun e => e.ask = k)) else 0)
+          + - (if o.owner = x ∧ ad = d then sumTr (·.amt) (p.trA.filter (fun e => e.ask = k)) else 0)) 0 p.asks := by
+    apply sumIdx_congr_idx
+    intro k o hk
+    have ho := W.uA o (List.mem_of_getElem? hk)
+    obtain ⟨_, _, h3⟩ := VA k o hk
+    simp only [Nat.zero_add] at h3 ⊢
+    simp only [FilledOrder.delta, ho.1, ho.2.1, ho.2.2, if_true, h3, filledA_eq]
+    by_cases c1 : o.owner = x <;> by_cases c2 : pd = d <;> by_cases c3 : ad = d <;> simp [c1, c2, c3] <;> omega
+  have eB : sumIdx (fun k o => if o.owner = x then (FilledOrder.mk o (filledB p.trP k) []).delta d else 0) 0 p.bids
+      = sumIdx (fun k o => (if o.owner = x ∧ ad = d then sumTr (·.amt) (p.trA.filter (fun e => e.bid = k)) else 0)
+          + - (if o.owner = x ∧ pd = d then sumTr (·.amt) (p.trP.filter (fun e => e.bid = k)) else 0)) 0 p.bids := by
+    apply sumIdx_congr_idx
+    intro k o hk
+    have ho := W.uB o (List.mem_of_getElem? hk)
+    obtain ⟨_, _, h3⟩ := VB k o hk
+    simp only [Nat.zero_add] at h3 ⊢
+    simp only [FilledOrder.delta, ho.1, ho.2.1, ho.2.2, Bool.false_eq_true, if_false, h3, filledB_eq]
+    by_cases c1 : o.owner = x <;> by_cases c2 : pd = d <;> by_cases c3 : ad = d <;> simp [c1, c2, c3] <;> omega
+  rw [eA, eB, sumIdx_add, sumIdx_add, sumIdx_neg, sumIdx_neg]
+  omega
+
+
+/-- **Fee inputs.**  Per account and denom, the fee inputs are exactly the fees of the account's
+orders. -/
+theorem fee_inputs_exact {asks bids : List Order} {lookup : Denom → Except Err (Option Ratio)} {p : Plan}
+    {s : Settlement} (hp : plan asks bids lookup = .ok p) (hs : p.settlement = .ok s) (x : Addr) (d : Denom) :
+    s.feeInputs.amountFor x d = expectedFees (Plan.filledOrders p) x d := by
+  obtain ⟨ad, pd, W⟩ := plan_wf hp
+  obtain ⟨ta, tb, _, _, _, _, _, hf, _⟩ := settlement_unfold hs
+  rw [amountFor_eq_bal, hf, expectedFees_zipFilled p.bids (filledB p.trP) p.bidFees 0 W.lenBF,
+    expectedFees_zipFilled p.asks (filledA p.trP) p.askFees 0 W.lenAF]
+  simp [Plan.filledOrders, expectedFees_append]
+
+/-- **Fees.**  A bid pays exactly its own settlement fees; an ask pays its flat fee plus — when the
+market has a seller ratio `price : fee` for the price denom — `⌈received · fee / price⌉` in the
+ratio's fee denom, computed on what it actually receives. -/
+theorem fee_formula {asks bids : List Order} {lookup : Denom → Except Err (Option Ratio)} {p : Plan}
+    (hp : plan asks bids lookup = .ok p) :
+    p.bidFees = p.bids.map (·.fees) ∧
+    ∃ ratio, lookup (p.asks.headD default).priceDenom = .ok ratio ∧
+      ∀ k o, p.asks[k]? = some o →
+        match ratio with
+        | none => p.askFees[k]? = some o.fees
+        | some r => ∃ amt, p.askFees[k]? = some (o.fees ++ [(r.feeDenom, amt)]) ∧
+            (0 ≤ filledA p.trP k → 0 < r.priceAmt → 0 ≤ r.feeAmt →
+              Fees.IsCeilDiv (filledA p.trP k * r.feeAmt) r.priceAmt amt) := by
+  obtain ⟨left1, ratio, _, _, _, _, _, h6, h7, h8⟩ := plan_unfold hp
+  refine ⟨h8, ratio, h6, ?_⟩
+  intro k o hk
+  have := askFeesToPay_spec h7 k o hk
+  cases ratio with
+  | none => simpa using this
+  | some r =>
+    simp only [Nat.zero_add] at this
+    obtain ⟨amt, h1, h2⟩ := this
+    exact ⟨amt, h2, fun ha hrp hrf => (ratioFee_is_ceil h1 ha hrp hrf).2.2⟩
+
+/-- **`populateFilled` only reorders.**  With distinct order ids, `FullyFilledOrders` followed by
+`PartialOrderFilled` are exactly the orders of the plan; so the account deltas and fee totals can be
+read off the returned `Settlement` alone. -/
+theorem filled_is_reordering {p : Plan} {s : Settlement} (hs : p.settlement = .ok s)
+    (hn : ((Plan.filledOrders p).map (·.order.id)).Nodup) (x : Addr) (d : Denom) :
+    expectedDelta s.filled x d = expectedDelta (Plan.filledOrders p) x d ∧
+    expectedFees s.filled x d = expectedFees (Plan.filledOrders p) x d := by
+  obtain ⟨ta, tb, _, _, _, _, _, _, hpf, _⟩ := settlement_unfold hs
+  exact ⟨populateFilled_sum _ _ _ _ hpf hn _, populateFilled_sum _ _ _ _ hpf hn _⟩
+
 end PvProofs.C01
